@@ -41,6 +41,42 @@ struct StreamInfo {
 	notified_after_end: bool,
 	routing: bool,
 	saw_end: bool,
+	/// item type of a typed stream (`cl subscribe <ty>`): `sent` / `yielded` then hold what the harness prints for a
+	/// decoded item, or `<bad>` for a payload that is no value of the type (the stream yields `Some(Err(_))` for it)
+	ty: Option<String>,
+}
+
+const BAD: &str = "<bad>";
+
+/// What a stream of item type `ty` makes of the payload `v`, judged from the JSON value alone: the text the harness
+/// prints for the decoded item, or None when the payload is no value of the type.
+fn typed_expect(ty: &str, v: &Value) -> Option<String> {
+	let u = |x: &Value| if x.is_u64() { x.as_u64() } else { None };
+	match ty {
+		"u64" => u(v).map(|n| n.to_string()),
+		"str" => v.as_str().map(|s| s.to_string()),
+		"bool" => v.as_bool().map(|b| b.to_string()),
+		"optu64" => {
+			if v.is_null() {
+				Some("none".into())
+			} else {
+				u(v).map(|n| format!("some:{n}"))
+			}
+		}
+		// `#[derive(Deserialize)] struct Pt { x: u64, y: u64 }`: by name (other members ignored) or by position (exactly two)
+		"pt" => match v {
+			Value::Object(o) => match (o.get("x").and_then(u), o.get("y").and_then(u)) {
+				(Some(x), Some(y)) => Some(format!("{x},{y}")),
+				_ => None,
+			},
+			Value::Array(a) if a.len() == 2 => match (u(&a[0]), u(&a[1])) {
+				(Some(x), Some(y)) => Some(format!("{x},{y}")),
+				_ => None,
+			},
+			_ => None,
+		},
+		_ => None,
+	}
 }
 
 #[derive(Default)]
@@ -53,6 +89,8 @@ struct Oracle {
 	ever_shut: bool,
 	/// subscribe_to_method calls not acknowledged yet (the send task is blocked): (op, method)
 	pending_regs: Vec<(usize, String)>,
+	/// item type of the typed subscribe calls, by op
+	sub_types: BTreeMap<usize, String>,
 }
 
 fn canon(s: &str) -> String {
@@ -103,7 +141,10 @@ impl Oracle {
 								if s.consumer == Ended::Dropped {
 									s.notified_after_end = true;
 								}
-								s.sent.push(p.clone());
+								s.sent.push(match &s.ty {
+									None => p.clone(),
+									Some(ty) => serde_json::from_str::<Value>(p).ok().and_then(|v| typed_expect(ty, &v)).unwrap_or_else(|| BAD.to_string()),
+								});
 								if s.consumer == Ended::No || s.consumer == Ended::Unsubscribed {
 									if s.occupancy < self.cap {
 										s.occupancy += 1;
@@ -128,7 +169,11 @@ impl Oracle {
 					for s in self.streams.values_mut() {
 						if s.method.as_deref() == Some(m.as_str()) && s.routing {
 							s.sent.push(payload.clone());
-							if s.occupancy < self.cap && s.consumer == Ended::No {
+							if s.consumer == Ended::Unsubscribed {
+								// `unsubscribe()` is under way while the send task is blocked: the receiver still exists (the future
+								// owns it: waiting for room in the request queue, or already draining), so the handler may well
+								// stay registered until the back end gets to the UnregisterNotification — the name counts as taken
+							} else if s.occupancy < self.cap && s.consumer == Ended::No {
 								s.occupancy += 1;
 							} else {
 								s.lag_seen = s.lag_seen || s.consumer == Ended::No;
@@ -163,17 +208,23 @@ impl Oracle {
 		}
 	}
 
-	fn is_prefix(a: &[String], b: &[String]) -> bool {
-		a.len() <= b.len() && a.iter().zip(b.iter()).all(|(x, y)| canon(x) == canon(y))
+	fn is_prefix(a: &[String], b: &[String], exact: bool) -> bool {
+		a.len() <= b.len() && a.iter().zip(b.iter()).all(|(x, y)| if exact { x == y } else { canon(x) == canon(y) })
 	}
 
 	/// the prefix property for one stream; failures that the lag-gap matcher accepts become `KF …`
 	fn check_prefix(&self, op: usize) -> Result<(), String> {
 		let s = &self.streams[&op];
-		if Self::is_prefix(&s.yielded, &s.sent) {
+		if Self::is_prefix(&s.yielded, &s.sent, s.ty.is_some()) {
 			return Ok(());
 		}
-		let msg = format!("stream {op} yielded {:?} which is not a prefix of what was sent for it {:?}", s.yielded, s.sent);
+		let msg = match &s.ty {
+			None => format!("stream {op} yielded {:?} which is not a prefix of what was sent for it {:?}", s.yielded, s.sent),
+			Some(ty) => format!(
+				"typed stream {op} (items of type {ty}) yielded {:?}; one item per notification, in order, would be {:?} ({BAD} = an Err item for a payload that is no {ty})",
+				s.yielded, s.sent
+			),
+		};
 		// pre-fix (F-14, fixed in /repo f2384ab) a stream could resume behind a lag gap: yields 1,3 of 1,2,3
 		Err(msg)
 	}
@@ -202,6 +253,9 @@ fn run_one(out: &mut Out, lines: &[String], fam: &mut BTreeMap<u64, Vec<(usize, 
 				"call" | "batch" | "tbatch" => orc.n_ops += 1,
 				"subscribe" => {
 					orc.sub_ops.push(orc.n_ops);
+					if let Some(ty) = w.get(2) {
+						orc.sub_types.insert(orc.n_ops, ty.to_string());
+					}
 					orc.n_ops += 1;
 				}
 				"regnotif" => {
@@ -248,6 +302,16 @@ fn run_one(out: &mut Out, lines: &[String], fam: &mut BTreeMap<u64, Vec<(usize, 
 			}
 			if w[1] == "deliver" {
 				let text = String::from_utf8(unhex(w[2])).unwrap_or_default();
+				// whatever the server says in a well-formed notification (about a stream that is live, ending, ended or unknown),
+				// the connection survives it
+				if let Ok(v) = serde_json::from_str::<Value>(&text) {
+					if v.is_object() && msg_kind(&v) == MsgKind::Notification {
+						out.count("notification.survived.checked");
+						if let Some(f) = &obs.fatal {
+							verdict = Err(format!("the well-formed notification {text} ended the connection ({f})"));
+						}
+					}
+				}
 				// acceptance of a subscribe in this very line: routing starts after it
 				orc.deliver(&text);
 				// the responses of an array are handed to the batch code together with the pushes around them being
@@ -268,8 +332,13 @@ fn run_one(out: &mut Out, lines: &[String], fam: &mut BTreeMap<u64, Vec<(usize, 
 				for (op, comp) in &obs.comps {
 					if let Comp::Sub(sid) = comp {
 						let sidj = if let Some(n) = sid.strip_prefix("n:") { n.to_string() } else { Value::String(String::from_utf8(unhex(&sid[2..])).unwrap_or_default()).to_string() };
-						orc.streams.insert(*op, new_stream(Some(sidj), None, !orc.gate_open));
-						out.count("stream.accepted");
+						let mut st = new_stream(Some(sidj), None, !orc.gate_open);
+						st.ty = orc.sub_types.get(op).cloned();
+						out.count(&match &st.ty {
+							Some(ty) => format!("stream.accepted.typed.{ty}"),
+							None => "stream.accepted".to_string(),
+						});
+						orc.streams.insert(*op, st);
 					}
 				}
 				if obs.fatal.is_some() {
@@ -327,14 +396,26 @@ fn run_one(out: &mut Out, lines: &[String], fam: &mut BTreeMap<u64, Vec<(usize, 
 					let op: usize = w[2].parse().unwrap_or(0);
 					if let Some(s) = orc.streams.get_mut(&op) {
 						match r {
-							NextRes::Item(p) => {
+							NextRes::Item(_) | NextRes::Bad => {
 								nontrivial = true;
-								out.count("next.item");
-								s.yielded.push(p.clone());
+								let p = match r {
+									NextRes::Item(p) => p.clone(),
+									_ => BAD.to_string(),
+								};
+								out.count(match (&s.ty, p == BAD) {
+									(None, _) => "next.item",
+									(Some(_), false) => "next.item.typed.ok",
+									(Some(_), true) => "next.item.typed.err",
+								});
+								let raw_bad = s.ty.is_none() && p == BAD;
+								s.yielded.push(p);
 								if s.occupancy > 0 {
 									s.occupancy -= 1;
 								}
 								verdict = orc.check_prefix(op);
+								if raw_bad {
+									verdict = Err(format!("stream {op} of raw JSON items yielded an Err item"));
+								}
 							}
 							NextRes::Pending => {
 								out.count("next.pending");
@@ -459,6 +540,7 @@ fn new_stream(sid: Option<String>, method: Option<String>, gate_shut: bool) -> S
 		notified_after_end: false,
 		routing: true,
 		saw_end: false,
+		ty: None,
 	}
 }
 
@@ -512,6 +594,45 @@ struct GStream {
 	op: usize,
 	sid: String, // JSON text of the id
 	live: bool,  // the harness still holds the Subscription object
+	ty: Option<&'static str>,
+}
+
+/// a payload for a stream of item type `ty`: a value of the type in one of its spellings, or legal JSON of another type
+fn typed_payload(rng: &mut Rng, ty: &str, v: u64, good: bool) -> String {
+	if good {
+		match ty {
+			"u64" => match rng.below(4) {
+				0 => "0".into(),
+				1 => "18446744073709551615".into(),
+				_ => v.to_string(),
+			},
+			"str" => match rng.below(4) {
+				0 => "\"\"".into(),
+				1 => format!("\"{v}\""),
+				_ => format!("\"t{v} \\u00e9\\n\""),
+			},
+			"bool" => if v % 2 == 0 { "true".into() } else { "false".into() },
+			"pt" => match rng.below(4) {
+				0 => format!("[{v},{}]", v + 1),
+				1 => format!("{{\"y\":{},\"x\":{v}}}", v + 1),
+				2 => format!("{{\"x\":{v},\"z\":[null],\"y\":{}}}", v + 1),
+				_ => format!("{{\"x\":{v},\"y\":{}}}", v + 1),
+			},
+			_ => if rng.chance(1, 3) { "null".into() } else { v.to_string() },
+		}
+	} else {
+		let menu: &[&str] = match ty {
+			"u64" => &["null", "\"7\"", "-1", "1.5", "[7]", "{\"x\":7}", "true", "18446744073709551616", "\"\"", "1e2"],
+			"str" => &["null", "7", "[\"a\"]", "{\"s\":\"a\"}", "false", "[]"],
+			"bool" => &["null", "0", "1", "\"true\"", "[true]", "{}"],
+			"pt" => &["null", "7", "[7]", "[1,2,3]", "[]", "{\"x\":1}", "{\"y\":2}", "{}", "{\"x\":\"1\",\"y\":2}", "{\"x\":1,\"y\":-2}", "[1,\"2\"]", "\"1,2\"", "{\"X\":1,\"Y\":2}"],
+			_ => &["\"7\"", "-1", "[]", "true", "{}", "1.5", "[null]", "\"null\""],
+		};
+		(*rng.pick(menu)).to_string()
+	}
+}
+fn push_raw(sid: &str, payload: &str) -> String {
+	format!("{{\"jsonrpc\":\"2.0\",\"method\":\"sub\",\"params\":{{\"subscription\":{sid},\"result\":{payload}}}}}")
 }
 
 struct Gen {
@@ -536,7 +657,15 @@ impl Gen {
 		if rng.chance(1, 2) { format!("\"S{}\"", self.sid_counter) } else { format!("{}", 100 + self.sid_counter) }
 	}
 	fn subscribe(&mut self, rng: &mut Rng, lines: &mut Vec<String>, accept: bool) {
-		lines.push("cl subscribe".into());
+		// one stream in three is typed: its items are values of a Rust type, not raw JSON
+		let ty: Option<&'static str> = if rng.chance(1, 3) { Some(*rng.pick(&TYPED_KINDS)) } else { None };
+		match ty {
+			Some(t) => {
+				self.counts.push("api.subscribe.typed");
+				lines.push(format!("cl subscribe {t}"));
+			}
+			None => lines.push("cl subscribe".into()),
+		}
 		let id = self.next_id;
 		self.next_id += 2;
 		let op = self.next_op;
@@ -555,7 +684,7 @@ impl Gen {
 			let dup = self.streams.iter().any(|s| s.sid == sid && s.live);
 			lines.push(format!("cl deliver {}", hexs(&format!("{{\"jsonrpc\":\"2.0\",\"id\":{},\"result\":{sid}}}", idj(id, self.str_ids)))));
 			if !dup {
-				self.streams.push(GStream { op, sid, live: true });
+				self.streams.push(GStream { op, sid, live: true, ty });
 			}
 		} else {
 			lines.push(format!(
@@ -571,6 +700,13 @@ impl Gen {
 			0..=6 if !known.is_empty() => {
 				let sid = rng.pick(&known).clone();
 				let v = self.value();
+				// the newest stream with that id decides what the server sends: for a typed stream mostly values of its
+				// type, one in three something else that is legal JSON
+				if let Some(ty) = self.streams.iter().rev().find(|s| s.sid == sid).and_then(|s| s.ty) {
+					let good = rng.chance(2, 3);
+					self.counts.push(if good { "typed.payload.well-typed" } else { "typed.payload.wrong-typed" });
+					return push_raw(&sid, &typed_payload(rng, ty, v, good));
+				}
 				if rng.chance(1, 4) {
 					self.counts.push("spell.subscription-notification-shaped");
 					push_shaped(rng, &sid, v)
@@ -729,9 +865,22 @@ fn gen_random_case(rng: &mut Rng, out: &mut Out, caseno: u64) -> Vec<String> {
 	// one case in eight ends on a text that is no message at all
 	if rng.chance(1, 8) {
 		let pending = rng.below(g.next_id.max(1));
-		let (name, text) = near_miss(rng, &idj(pending, str_ids));
-		out.count(name);
-		lines.push(format!("cl deliverx {}", hexs(&text)));
+		let live_raw = g.streams.iter().find(|s| s.live && s.ty.is_none()).map(|s| s.sid.clone());
+		if let (Some(sid), true) = (live_raw, rng.chance(1, 2)) {
+			// a binary frame whose bytes are no UTF-8: a well-formed notification for a live stream (or answer) with one
+			// damaged character inside a string — nothing of it may reach a stream
+			let place = *rng.pick(&[7usize, 7, 7, 8, 4, 5, 0]);
+			let bytes = utf8_corruption(rng, place, &idj(pending, str_ids), &sid, |k| out.count(k));
+			lines.push(format!("cl deliverx {} bin", hex(&bytes)));
+			// (the stream would show it)
+			if let Some(s) = g.streams.iter().find(|s| s.live && s.ty.is_none()) {
+				lines.push(format!("cl next {}", s.op));
+			}
+		} else {
+			let (name, text) = near_miss(rng, &idj(pending, str_ids));
+			out.count(name);
+			lines.push(format!("cl deliverx {}", hexs(&text)));
+		}
 		lines.push("cl connected".into());
 		return lines;
 	}
@@ -853,6 +1002,191 @@ fn gen_replacement_case(rng: &mut Rng, caseno: u64) -> Vec<String> {
 	lines
 }
 
+
+/// Typed streams: `len` notifications, each well- or wrong-typed as the bits of `mask` say, delivered singly or in one
+/// array, read one by one (sometimes in between): the stream yields one item per notification, `Ok` or `Err`, in order.
+fn gen_typed_case(rng: &mut Rng, caseno: u64, ty: &str, len: usize, mask: u64) -> Vec<String> {
+	let str_ids = rng.chance(1, 3);
+	let cap = 4.max(len as u64);
+	let mut lines = vec![format!("case {caseno} client {} {cap} 64", if str_ids { "str" } else { "num" })];
+	let sid = if rng.chance(1, 2) { "\"T\"".to_string() } else { "31".to_string() };
+	lines.push(format!("cl subscribe {ty}"));
+	lines.push(format!("cl deliver {}", hexs(&format!("{{\"jsonrpc\":\"2.0\",\"id\":{},\"result\":{sid}}}", idj(0, str_ids)))));
+	let msgs: Vec<String> = (0..len).map(|i| push_raw(&sid, &typed_payload(rng, ty, 10 + i as u64, mask >> i & 1 == 0))).collect();
+	let mut reads = 0;
+	match rng.below(3) {
+		0 => lines.push(format!("cl deliver {}", hexs(&format!("[{}]", msgs.join(","))))),
+		1 => {
+			for m in &msgs {
+				lines.push(format!("cl deliver {}", hexs(m)));
+			}
+		}
+		_ => {
+			for m in &msgs {
+				lines.push(format!("cl deliver {}", hexs(m)));
+				if rng.chance(1, 2) {
+					lines.push("cl next 0".into());
+					reads += 1;
+				}
+			}
+		}
+	}
+	for _ in reads..len + 1 {
+		lines.push("cl next 0".into());
+	}
+	// the stream goes on after an Err item
+	lines.push(format!("cl deliver {}", hexs(&push_raw(&sid, &typed_payload(rng, ty, 99, true)))));
+	lines.push("cl next 0".into());
+	if rng.chance(1, 2) {
+		lines.push(format!("cl deliver {}", hexs(&close(&sid))));
+		lines.push("cl next 0".into());
+	} else {
+		lines.push(format!("cl {} 0", if rng.chance(1, 2) { "unsub" } else { "drop" }));
+	}
+	lines
+}
+
+/// Between the client's unsubscribe request and the server's answer to it the server still talks about that
+/// subscription id: (a) its close notification, (b) notifications in flight, (c) the id handed out again to a new
+/// subscribe — in every order; then the answer, and the connection must still work: the new holder of the id gets what
+/// is sent for it from then on, the old stream nothing.
+fn gen_between_case(rng: &mut Rng, out: &mut Out, caseno: u64) -> Vec<String> {
+	let str_ids = rng.chance(1, 3);
+	let cap = rng.range(1, 4);
+	let mut lines = vec![format!("case {caseno} client {} {cap} 64", if str_ids { "str" } else { "num" })];
+	let sid = if rng.chance(1, 2) { "\"B\"".to_string() } else { "55".to_string() };
+	let accept = |id: u64| format!("{{\"jsonrpc\":\"2.0\",\"id\":{},\"result\":{sid}}}", idj(id, str_ids));
+	let ty: Option<&str> = if rng.chance(1, 3) { Some(*rng.pick(&TYPED_KINDS)) } else { None };
+	let sub_line = |ty: Option<&str>| match ty {
+		Some(t) => format!("cl subscribe {t}"),
+		None => "cl subscribe".to_string(),
+	};
+	let mut v = 0u64;
+	let mut note = |rng: &mut Rng, ty: Option<&str>| {
+		v += 1;
+		match ty {
+			Some(t) => {
+				let good = rng.chance(2, 3);
+				push_raw(&sid, &typed_payload(rng, t, v, good))
+			}
+			None => push(&sid, v),
+		}
+	};
+	lines.push(sub_line(ty));
+	lines.push(format!("cl deliver {}", hexs(&accept(0))));
+	let mut next_id = 2u64;
+	let mut next_op = 1usize;
+	for _ in 0..rng.below(3) {
+		let m = note(rng, ty);
+		lines.push(format!("cl deliver {}", hexs(&m)));
+		if rng.chance(1, 2) {
+			lines.push("cl next 0".into());
+		}
+	}
+	let how = rng.below(3);
+	match how {
+		0 => lines.push("cl unsub 0".into()),
+		1 => lines.push("cl drop 0".into()),
+		_ => {
+			for _ in 0..cap + 1 {
+				let m = note(rng, ty);
+				lines.push(format!("cl deliver {}", hexs(&m)));
+			}
+		}
+	}
+	out.count(["between.ended-by.unsub", "between.ended-by.drop", "between.ended-by.lag"][how as usize]);
+	let mut events: Vec<u8> = vec![];
+	if rng.chance(3, 4) {
+		events.push(b'a');
+	}
+	for _ in 0..rng.below(3) {
+		events.push(b'b');
+	}
+	if rng.chance(1, 2) {
+		events.push(b'c');
+	}
+	if rng.chance(1, 4) {
+		events.push(b'a');
+	}
+	if events.is_empty() {
+		events.push(b'a');
+	}
+	for i in (1..events.len()).rev() {
+		let j = rng.below(i as u64 + 1) as usize;
+		events.swap(i, j);
+	}
+	out.count(&format!("between.first.{}", events[0] as char));
+	for k in [b'a', b'b', b'c'] {
+		if events.contains(&k) {
+			out.count(&format!("between.has.{}", k as char));
+		}
+	}
+	if events.iter().position(|e| *e == b'c').zip(events.iter().rposition(|e| *e == b'a')).map(|(c, a)| c < a).unwrap_or(false) {
+		out.count("between.close-after-resubscribe");
+	}
+	let mut acks: Vec<u64> = vec![1];
+	let mut holder: Option<(usize, u64, Option<&str>)> = None;
+	let mut finished: Vec<usize> = vec![];
+	for e in events {
+		match e {
+			b'a' => {
+				lines.push(format!("cl deliver {}", hexs(&close(&sid))));
+				if let Some((c_op, _, _)) = holder.take() {
+					finished.push(c_op);
+				}
+			}
+			b'b' => {
+				let m = note(rng, holder.and_then(|h| h.2).or(ty));
+				lines.push(format!("cl deliver {}", hexs(&m)));
+				if let (Some((c_op, _, _)), true) = (holder, rng.chance(2, 3)) {
+					lines.push(format!("cl next {c_op}"));
+				}
+			}
+			_ => {
+				if let Some((c_op, c_id, _)) = holder.take() {
+					lines.push(format!("cl drop {c_op}"));
+					acks.push(c_id + 1);
+				}
+				let cty: Option<&str> = if rng.chance(1, 3) { Some(*rng.pick(&TYPED_KINDS)) } else { None };
+				lines.push(sub_line(cty));
+				lines.push(format!("cl deliver {}", hexs(&accept(next_id))));
+				holder = Some((next_op, next_id, cty));
+				next_id += 2;
+				next_op += 1;
+			}
+		}
+		// the old stream gets nothing of all this (lag-ended: it still holds what was buffered, then ends)
+		if how == 2 && rng.chance(1, 3) {
+			lines.push("cl next 0".into());
+		}
+	}
+	// the answer to the unsubscribe call(s), then the connection still works
+	for a in &acks {
+		lines.push(format!("cl deliver {}", hexs(&format!("{{\"jsonrpc\":\"2.0\",\"id\":{},\"result\":true}}", idj(*a, str_ids)))));
+	}
+	lines.push("cl call".into());
+	lines.push(format!("cl deliver {}", hexs(&format!("{{\"jsonrpc\":\"2.0\",\"id\":{},\"result\":\"alive\"}}", idj(next_id, str_ids)))));
+	if let Some((c_op, _, cty)) = holder {
+		let m = note(rng, cty);
+		lines.push(format!("cl deliver {}", hexs(&m)));
+		for _ in 0..cap + 2 {
+			lines.push(format!("cl next {c_op}"));
+		}
+	}
+	for op in finished {
+		for _ in 0..cap + 2 {
+			lines.push(format!("cl next {op}"));
+		}
+	}
+	if how == 2 {
+		for _ in 0..cap + 2 {
+			lines.push("cl next 0".into());
+		}
+	}
+	lines.push("cl connected".into());
+	lines
+}
+
 /// every `cl deliver` line of a case, half of them in another spelling
 fn respell_delivers(rng: &mut Rng, lines: Vec<String>, out: &mut Out) -> Vec<String> {
 	lines
@@ -956,6 +1290,23 @@ fn main() {
 		}
 		for i in 0..n / 6 {
 			let ls = gen_replacement_case(&mut rng, 1_500_000 + i);
+			lines.extend(respell_delivers(&mut rng, ls, &mut out));
+		}
+		// typed streams: every item type x every pattern of well-/wrong-typed payloads of length 1..3 (thorough: ..5)
+		let mut k = 0u64;
+		for ty in TYPED_KINDS {
+			for len in 1..=(if a.tier == "thorough" { 5usize } else { 3 }) {
+				for mask in 0..(1u64 << len) {
+					k += 1;
+					out.count("family.typed-stream-patterns");
+					let ls = gen_typed_case(&mut rng, 1_700_000 + k, ty, len, mask);
+					lines.extend(respell_delivers(&mut rng, ls, &mut out));
+				}
+			}
+		}
+		for i in 0..n / 4 {
+			out.count("family.between-unsubscribe-and-ack");
+			let ls = gen_between_case(&mut rng, &mut out, 1_800_000 + i);
 			lines.extend(respell_delivers(&mut rng, ls, &mut out));
 		}
 		for i in 0..n / 6 {
